@@ -250,6 +250,21 @@ pub fn cb_filter_res(lex: &mut L) -> FilterResult<u8, u8> {
         Var('B', [R('b+', cb='cb_bool', cb_kind='bool', cb_fn='cb_bool')]),
         Var('G', [R('g+', cb='cb_filter_res', cb_kind='filter_result', cb_fn='cb_filter_res')], field='u8'),
         Var('P', [T('p')])], tags=('cb', 'cb_err', 'quick')))
+    # byte-mode lexer whose callback bumps by a length taken from the match (records ending exactly at the end of input)
+    D.append(Def('cb_bump_bytes', utf8=False, prelude='''
+pub type L<'s> = Lexer<'s, Tok>;
+pub fn cb_bumpn(lex: &mut L) -> bool {
+    let n = (lex.slice()[0] - b'0') as usize;
+    if lex.remainder().len() >= n { lex.bump(n); true } else { false }
+}
+pub fn cb_skipn(lex: &mut L) -> Skip {
+    if !lex.remainder().is_empty() { lex.bump(1); }
+    Skip
+}
+''', variants=[
+        Var('Rec', [R(b'[0-3]', cb='cb_bumpn', cb_kind='bool', cb_fn='cb_bumpn')]),
+        Var('Cm', [R(b'#', cb='cb_skipn', cb_kind='skip', cb_fn='cb_skipn')]),
+        Var('A', [R(b'[a-b]+')])], tags=('cb', 'bytes', 'no_consumption_rule', 'quick')))
     return D
 
 
